@@ -9,6 +9,7 @@ import (
 	"fmt"
 	"sync/atomic"
 
+	"verif/lib/streeh"
 	"verif/mc"
 
 	"github.com/creachadair/mds/stree"
@@ -437,5 +438,6 @@ func main() {
 				return checkSeq(tr)
 			},
 		},
+		streeh.CursorLongHarness(),
 	)
 }
